@@ -5,6 +5,14 @@ NEG = {"<": ">=", ">=": "<", ">": "<=", "<=": ">", "==": "!=", "!=": "=="}
 SWAP = {"<": ">", ">": "<", "<=": ">=", ">=": "<=", "==": "==", "!=": "!="}
 
 
+def _val_text(e):
+    """Text naming the value an operand has *after* the comparison: `++x` and `(x = e)` name x."""
+    e = strip_casts(e)
+    if isinstance(e, dict) and e.get("k") == "un" and e["op"] in ("pre++", "pre--"):
+        return lv(e["e"])
+    return lv(e)
+
+
 def cond_atoms(c, truth):
     """Decompose condition c (resolved tree) assumed to evaluate to `truth`
     into a list of (op, lhs_text, rhs_text, lhs_expr, rhs_expr) relational
@@ -29,7 +37,7 @@ def cond_atoms(c, truth):
     if k == "bin" and c["op"] in NEG:
         op = c["op"] if truth else NEG[c["op"]]
         l, r = strip_casts(c["l"]), strip_casts(c["r"])
-        out.append((op, lv(l), lv(r), l, r))
+        out.append((op, _val_text(l), _val_text(r), l, r))
         return out
     out.append(("true" if truth else "false", lv(c), c))
     return out
